@@ -102,9 +102,19 @@ func RunAll(eng *Engine, runs []*HarnessRun, workers, timeoutMs int) []*HarnessR
 				if os.Getenv("GOSYM_PROGRESS") != "" {
 					fmt.Fprintf(os.Stderr, "start %s\n", runs[i].Name)
 				}
+				if os.Getenv("GOSYM_PROGRESS") != "" {
+					runs[i].KeepPaths = true
+				}
 				results[i] = wk.Explore(runs[i])
 				if os.Getenv("GOSYM_PROGRESS") != "" {
 					fmt.Fprintf(os.Stderr, "done %s paths=%d wall=%.1fs\n", runs[i].Name, results[i].Paths, results[i].WallSec)
+					for _, p := range results[i].AllPaths {
+						for _, a := range p.Asserts {
+							if a.Ms > 500 {
+								fmt.Fprintf(os.Stderr, "   slow assert %dms %s %s\n", a.Ms, a.Status, a.Msg)
+							}
+						}
+					}
 				}
 			}
 		}()
